@@ -43,8 +43,9 @@ class D(Driver):
             now = w.clock.t
             elig = []
             for e in st._changeset_storage:
-                cl, cr = e[0]._changed, e[1]._changed
-                if (cl and cl <= now - age) or (cr and cr <= now - age) or e._priority < 0:
+                # eligible = the LAST notification for the object (either side) is at least the ageing interval old
+                latest = max(e[0]._changed or 0, e[1]._changed or 0)
+                if (latest and latest <= now - age) or e._priority < 0:
                     elig.append(e)
             # a negative ("immediately") priority must come from the application's prioritize() for a path the entry has now
             for e in st._changeset_storage:
